@@ -44,11 +44,13 @@ theorem selectRoutes_mem {routes : List Route} {qs : List Str} {l : List Route}
     exact ⟨this.1, _, _, this.2⟩
 
 theorem detectWebService_mem (qs : List Str) : ∀ (svcs : List Service) (best : Option (Service × Nat)) (s : Service) (sc : Nat),
-    detectWebService qs svcs best = some (s, sc) → s ∈ svcs ∨ best = some (s, sc)
-  | [], best, s, sc, h => by simp only [detectWebService] at h; exact Or.inr h
+    detectWebService E qs svcs best = some (some (s, sc)) → s ∈ svcs ∨ best = some (s, sc)
+  | [], best, s, sc, h => by
+    simp only [detectWebService, Option.some.injEq] at h; exact Or.inr h
   | x :: xs, best, s, sc, h => by
     unfold detectWebService at h
     split at h
+    · simp at h
     · rcases detectWebService_mem qs xs _ s sc h with h' | h'
       · exact Or.inl (List.mem_cons_of_mem _ h')
       · simp only [Option.some.injEq, Prod.mk.injEq] at h'
@@ -64,6 +66,13 @@ theorem detectWebService_mem (qs : List Str) : ∀ (svcs : List Service) (best :
     · rcases detectWebService_mem qs xs _ s sc h with h' | h'
       · exact Or.inl (List.mem_cons_of_mem _ h')
       · exact Or.inr h'
+
+/-- with no best service so far, the detected service is one of the list -/
+theorem detectWebService_mem_none {qs : List Str} {svcs : List Service} {s : Service} {sc : Nat}
+    (h : detectWebService E qs svcs none = some (some (s, sc))) : s ∈ svcs := by
+  rcases detectWebService_mem E qs svcs none s sc h with h' | h'
+  · exact h'
+  · simp at h'
 
 end Curly
 end Restful
